@@ -303,16 +303,12 @@ func mutate(g *lp.Gen, s string) string {
 	return string(b)
 }
 
-func emitCase(g *lp.Gen, client bool, heads string, maxBody, limit int, stream []byte, mode int, cut int) {
+func emitCase(g *lp.Gen, client bool, maxBody, limit int, stream []byte, mode int, cut int) {
 	cl := 0
 	if client {
 		cl = 1
 	}
-	if strings.Contains(heads, "1") {
-		g.P("C %d %d %d h=%s", cl, maxBody, limit, heads) // which responses answer a HEAD request
-	} else {
-		g.P("C %d %d %d", cl, maxBody, limit)
-	}
+	g.P("C %d %d %d", cl, maxBody, limit)
 	rest := stream
 	for len(rest) > 0 {
 		n := len(rest)
@@ -354,7 +350,6 @@ func gen(g *lp.Gen) {
 			limit = 20 + g.Intn(200)
 		}
 		var stream string
-		heads := "" // client: per response, does it answer a HEAD request ('1') — context the bytes do not carry
 		site := -1 // offset just after an injected control sequence
 		if g.Chance(1, 25) { // pure random bytes
 			stream = body(g, 1+g.Intn(60))
@@ -374,21 +369,13 @@ func gen(g *lp.Gen) {
 				case g.Chance(1, 4):
 					s = mutate(g, s)
 				}
-				if client && g.Chance(1, 4) {
-					heads += "1"
-					if k := strings.Index(s, "\r\n\r\n"); k >= 0 && g.Chance(3, 4) {
-						s = s[:k+4] // the reply to HEAD carries no body
-					}
-				} else {
-					heads += "0"
-				}
 				stream += s
 			}
 		}
 		b := []byte(stream)
 		if len(b) >= 2 && len(b) <= 300 && g.Chance(1, allCuts) {
 			for cut := 1; cut < len(b); cut++ {
-				emitCase(g, client, heads, maxBody, limit, b, 3, cut)
+				emitCase(g, client, maxBody, limit, b, 3, cut)
 			}
 			continue
 		}
@@ -407,6 +394,6 @@ func gen(g *lp.Gen) {
 				}
 			}
 		}
-		emitCase(g, client, heads, maxBody, limit, b, mode, cut)
+		emitCase(g, client, maxBody, limit, b, mode, cut)
 	}
 }
